@@ -1008,7 +1008,7 @@ class Interner:
         return [self.tab[k], truthy]
 
 
-_ANON = re.compile(r"%\((\d+) ([^)]*)\)s")
+_ANON = re.compile(r"%\(([^ )]+) ([^)]*)\)s")
 
 
 class Encoder:
@@ -1456,6 +1456,8 @@ def impl_pair(c):
     obs = {"viol": None, "model_in": [9], "model_out": [-999], "modelled": 0, "diff": diff}
     e1, e2 = Encoder(it), Encoder(it)
     try:
+        if not c.get("model", True):
+            raise Unsupported("oracle only")
         n1, n2 = e1.encode(s1), e2.encode(s2)
         eq = 1 if (e1.cacheable and e2.cacheable and e1.real_key == e2.real_key) else 0
         if not orm:
@@ -1651,11 +1653,13 @@ def _rand_recipe(rng, fam, plain=0.55):
     return p
 
 
-def _pairs_for(rng, fam, k):
+def _pairs_for(rng, fam, k, kmodel):
+    """for every coordinate, k random bases (the first kmodel of them also go through the Coq model;
+    the direct oracle runs on all)"""
     out = []
     sp = FAMS[fam]
     for coord, n in sp.items():
-        for _ in range(k):
+        for j in range(k):
             base = _rand_recipe(rng, fam)
             for kk, vv in RELEVANT.get(coord, {}).items():
                 base[kk] = vv
@@ -1673,7 +1677,7 @@ def _pairs_for(rng, fam, k):
                     base2 = dict(base, limit=0, offset=0, fu=0)
                 else:
                     base2 = base
-                out.append({"in": [], "mode": "pair", "fam": fam, "a": base2, "b": b, "kind": "pair-%s:%s" % (fam, coord), "model": fam != "orm"})
+                out.append({"in": [], "mode": "pair", "fam": fam, "a": base2, "b": b, "kind": "pair-%s:%s" % (fam, coord), "model": fam != "orm" and j < kmodel})
     return out
 
 
@@ -1702,12 +1706,17 @@ def _history(rng, fam_mix):
 def gen_cases(rng, tier):
     thorough = tier == "thorough"
     cases = []
-    cases += _pairs_for(rng, "select", 24 if thorough else 5)
-    cases += _pairs_for(rng, "dml", 16 if thorough else 4)
-    cases += _pairs_for(rng, "orm", 10 if thorough else 2)
-    for _ in range(600 if thorough else 60):
+    cases += _pairs_for(rng, "select", 24 if thorough else 4, 24 if thorough else 2)
+    cases += _pairs_for(rng, "dml", 16 if thorough else 3, 16 if thorough else 2)
+    cases += _pairs_for(rng, "orm", 10 if thorough else 2, 0)
+    nr = 600 if thorough else 40
+    for j in range(nr):
         fam = rng.choice(["select", "select", "dml"])
-        cases.append({"in": [], "mode": "pair", "fam": fam, "a": _rand_recipe(rng, fam, 0.4), "b": _rand_recipe(rng, fam, 0.4), "kind": "pair-%s:random" % fam, "model": True})
-    for _ in range(1500 if thorough else 110):
-        cases.append(_history(rng, ["select", "select", "select", "dml", "orm"]))
+        cases.append({"in": [], "mode": "pair", "fam": fam, "a": _rand_recipe(rng, fam, 0.4), "b": _rand_recipe(rng, fam, 0.4), "kind": "pair-%s:random" % fam, "model": thorough or j % 2 == 0})
+    nh = 1500 if thorough else 80
+    for j in range(nh):
+        h = _history(rng, ["select", "select", "select", "dml", "orm"])
+        if not thorough and j % 2:
+            h["try_model"] = False
+        cases.append(h)
     return cases
